@@ -38,8 +38,11 @@ inspected.  Case kinds:
          SEVERAL separator lines more often (2..4 lines: empty line followed by a
          blank / tab line and vice versa, 'ew' 'we' 'ewe' 'wew' 'eew' 'ewew' ...);
          also ~35% of the whitespace-separated parsed starts of build histories.
-         Same oracle, same control document (parsed with strict=False too); keys get
-         the suffix /parsed-with-strict=False    (M.ws-ns.order, M.ws-ns.find, M.match)
+         Same oracle; a disagreement of all_files_paragraphs() is decided by up to
+         three control documents (empty lines instead of whitespace-only ones; ONE
+         empty line per gap; that one parsed with the default strict=True) - see
+         ASSUMPTIONS; keys get the suffix /parsed-with-strict=False
+                                                 (M.ws-ns.order, M.ws-ns.find, M.match)
   long   paragraphs BUILT through the API with LONG pattern lists: FilesParagraph.create
          (list or tuple) and `files = list / tuple` (on a free paragraph / on a paragraph already in
          the document, after the paragraph answered for its first, short list) with
@@ -104,6 +107,12 @@ Mutants of the long-list / non-strict classes (repo tests still 234 passed), all
   files_pattern cache keyed on self['files'][:100]                stale-pattern-after-files-reassigned/long-pattern-list-re-assigned
   Copyright(strict=False) parses with whitespace-separates-paragraphs False
                                                                   files-paragraph-lost-at-whitespace-only-separator/parsed-with-strict=False
+  Copyright(strict=False) "collapses" runs of blank lines and stops at the second blank line in a row
+                                                                  files-paragraph-lost-at-gap-of-several-separator-lines/parsed-with-strict=False
+                                                                  (first reported INCONCLUSIVE: the only control had the same
+                                                                  gaps; a second control with ONE empty line per gap now decides)
+  Copyright(strict=False) leaves out the last paragraph           files-paragraph-lost-at-any-paragraph-separator/parsed-with-strict=False
+                                                                  (third control: the canonical document with the default strict=True)
 
 Mutants of this class tried on a scratch copy (repo tests still 234 passed):
   find caches list(all_files_paragraphs()) at first use          caught (find-misses-matching-paragraph, find-first-match-wins)
@@ -171,15 +180,22 @@ ASSUMPTIONS = ['vp.models.globmatch is a faithful model of the copyright-format 
                'Copyright id and pattern tuple; find_files_paragraph = last match / None; matches = glob model)',
                'whitespace-only separators, guards: (a) a disagreement of all_files_paragraphs() (or an exception from Copyright()) is '
                'reported only if the CONTROL document - same paragraphs, same source kind, every whitespace-only line replaced by an '
-               'empty one - does show exactly what was written; otherwise it is harness sanity (inconclusive / the ordinary '
+               'empty one - does show exactly what was written (key ...-at-whitespace-only-separator), or, failing that, if the '
+               'SECOND control - same paragraphs, same source kind, same `strict`, exactly ONE empty line between paragraphs - does (key '
+               '...-at-gap-of-several-separator-lines: paragraphs are "separated by empty lines" (Policy 5.1), the library documents that it '
+               '"skips any blank lines at the beginning" of a paragraph, so a gap of several separator lines is taken to separate like one '
+               'empty line and must not end the document); otherwise it is harness sanity (inconclusive / the ordinary '
                'unexpected-exception path), as for every other parsed document; (b) stand-alone License paragraphs that differ from what '
                'was written while the Files paragraphs agree change no resolution: counted as ws:note:* / ws_notes, never a violation '
                'of this property (a build history is then not driven from that start); (c) bytes sources are UTF-8, the default '
                'encoding of Copyright()',
                'Copyright(..., strict=False): the parameter is documented as "raise if format errors are detected"; the documents of this '
                'class are well formed apart from the whitespace-only separator lines, so the document is taken to be the same document as '
-               'with strict=True (and as with empty separator lines).  Same guards as above; the control document is parsed with '
-               'strict=False as well, so anything strict=False does to EVERY document is harness sanity, not a finding.  Warnings emitted '
+               'with strict=True (and as with empty separator lines).  Same guards as above; both control documents are parsed with '
+               'strict=False as well, so anything strict=False does to EVERY document - also to the canonical one with one empty line '
+               'between paragraphs - is harness sanity, not a finding, UNLESS that canonical document parsed with the default strict=True does '
+               'show what was written: then strict=False itself changed what a well-formed document contains (key '
+               '...-at-any-paragraph-separator/parsed-with-strict=False).  Warnings emitted '
                'during a non-strict parse are counted (ns:note:warning:*), never judged',
                'long pattern lists built through the API: domain = legal (4%: one illegal), non-empty, whitespace-free patterns of printable '
                'ASCII; no limit on the number of patterns or on the length of a pattern is documented, so none is assumed.  The property '
@@ -228,8 +244,8 @@ SIZES = {
     'raw': (10000, 400000),        # x ~5 names
     'wsdoc': (3600, 150000),       # x ~5 names x ~3 paragraphs; paragraphs separated by whitespace-only lines
     'build': (5000, 150000),       # x ~5 query steps x ~6 names x ~3 paragraphs, + one dump-then-parse per query step
-    'nsdoc': (1400, 56000),        # whitespace-only separator runs of 2..4 lines, Copyright(..., strict=False)
-    'long': (900, 36000),          # built paragraphs with LONG pattern lists: x ~20 names x ~3 paragraphs x 2..3 stages
+    'nsdoc': (1400, 42000),        # whitespace-only separator runs of 2..4 lines, Copyright(..., strict=False)
+    'long': (900, 28000),          # built paragraphs with LONG pattern lists: x ~20 names x ~3 paragraphs x 2..3 stages
 }
 
 LIT = ['a', 'a', 'a', 'b', 'b', 'c', 'A', '/', '/', '.']
@@ -1409,15 +1425,42 @@ def ws_count_document(ctx, paras, seps, mode, prefix='ws'):
                 ctx.count('%s:whitespace-line-directly-after-files-value' % prefix)
 
 
-def ws_control(ctx, paras, seps, mode, strict=True):
+def ws_control(ctx, paras, seps, mode, strict=True, single=False):
     """Differential control for a disagreement on a document with whitespace-only separator lines: the SAME document
-    with every such line replaced by an empty line, through the same kind of source.  Returns (files view, ids of all
-    non-header paragraphs), or the exception it raised."""
+    with every such line replaced by an empty line (single=True: with exactly ONE empty line between paragraphs, the
+    canonical layout), through the same kind of source and the same `strict`.  Returns (files view, ids of all non-header
+    paragraphs), or the exception it raised."""
     try:
-        c = parse_doc(ctx, doc_lines(paras, seps, plain=True), mode, strict)
+        c = parse_doc(ctx, doc_lines(paras, None if single else seps, plain=True), mode, strict)
         return _files_view(c), _para_ids(c.all_paragraphs())
     except Exception as e:
         return e
+
+
+def ws_controls(ctx, paras, seps, mode, strict=True):
+    """Which control shows exactly the Files paragraphs written?  -> ('whitespace-only', ...) when the same document with
+    EMPTY separator lines (same number of them) does: the disagreement is down to the whitespace-only lines;
+    ('several-lines', ...) when only the document with ONE empty line per gap does: it is down to gaps made of several
+    separator lines, whitespace-only or not; ('strict=False', ...) for a document parsed with strict=False when only the
+    canonical document parsed with the DEFAULT strict=True does: strict=False itself changes what a well-formed document
+    contains; (None, controls) when none does: harness sanity, nothing is accused."""
+    want = _written_files_view(paras)
+
+    def ok(x):
+        return not isinstance(x, Exception) and x[0] == want
+
+    ctl = [ws_control(ctx, paras, seps, mode, strict)]
+    if ok(ctl[-1]):
+        return 'whitespace-only', ctl
+    if any(len(run) > 1 for run in seps):
+        ctl.append(ws_control(ctx, paras, seps, mode, strict, single=True))
+        if ok(ctl[-1]):
+            return 'several-lines', ctl
+    if not strict:
+        ctl.append(ws_control(ctx, paras, seps, mode, True, single=True))
+        if ok(ctl[-1]):
+            return 'strict=False', ctl
+    return None, ctl
 
 
 NS_SUFFIX = '/parsed-with-strict=False'
@@ -1442,36 +1485,48 @@ def ws_judge_parsed(ctx, c, paras, seps, mode, small, prefix='ws', strict=True):
             if len(ctx.extra['ws_notes']) < 3:
                 ctx.extra['ws_notes'].append('written %r, all_paragraphs() shows %r' % (_written_ids(paras), full))
         return True
-    ctl = ws_control(ctx, paras, seps, mode, strict)
-    if isinstance(ctl, Exception) or ctl[0] != want:
+    which, ctl = ws_controls(ctx, paras, seps, mode, strict)
+    if which is None:
         ctx.inconclusive.append('document did not parse to the pattern lists written, with whitespace-only AND with '
-                                'empty separator lines: wrote %r, got %r / %r' % (want, got, ctl))
+                                'empty separator lines (AND with one empty line per gap): wrote %r, got %r / %r'
+                                % (want, got, ctl))
         return False
+    where = {'whitespace-only': 'whitespace-only-separator', 'several-lines': 'gap-of-several-separator-lines',
+             'strict=False': 'any-paragraph-separator'}[which]
     if isinstance(got, str):
-        key = 'files-paragraph-listing-raises-on-whitespace-only-separators'
+        key = 'files-paragraph-listing-raises-on-%ss' % where
     elif len(got) < len(want):
-        key = 'files-paragraph-lost-at-whitespace-only-separator'
+        key = 'files-paragraph-lost-at-%s' % where
     elif len(got) > len(want):
-        key = 'extra-files-paragraph-at-whitespace-only-separator'
+        key = 'extra-files-paragraph-at-%s' % where
     else:
-        key = 'files-paragraphs-differ-at-whitespace-only-separator'
+        key = 'files-paragraphs-differ-at-%s' % where
     ctx.violation(key + ('' if strict else NS_SUFFIX),
                   'all_files_paragraphs() of the parsed document (source %s%s, separator runs %r) shows %r; written were %r, '
-                  'and the same document with empty separator lines shows exactly those'
-                  % (mode, '' if strict else ', Copyright(..., strict=False)', seps, got, want), small)
+                  'and the same document with %s shows exactly those'
+                  % (mode, '' if strict else ', Copyright(..., strict=False)', seps, got, want,
+                     {'whitespace-only': 'empty separator lines',
+                      'several-lines': 'ONE empty line between paragraphs (the same document with as many, but empty, separator '
+                                       'lines does not)',
+                      'strict=False': 'one empty line between paragraphs parsed with the default strict=True (parsed with '
+                                      'strict=False it does not)'}[which]), small)
     return False
 
 
 def ws_rejected(ctx, exc, paras, seps, mode, small, strict=True):
     """Copyright() raised on a document with whitespace-only separators.  True => recorded as a violation (the control
     document parses to what was written); False => not a separator matter, the caller re-raises."""
-    ctl = ws_control(ctx, paras, seps, mode, strict)
-    if isinstance(ctl, Exception) or ctl[0] != _written_files_view(paras):
+    which, ctl = ws_controls(ctx, paras, seps, mode, strict)
+    if which is None:
         return False
-    ctx.violation('document-with-whitespace-only-separators-rejected' + ('' if strict else NS_SUFFIX),
+    ctx.violation({'whitespace-only': 'document-with-whitespace-only-separators-rejected',
+                   'several-lines': 'document-with-gaps-of-several-separator-lines-rejected',
+                   'strict=False': 'well-formed-document-rejected'}[which] + ('' if strict else NS_SUFFIX),
                   'Copyright(%s) over source %s with separator runs %r raised '
-                  '%s: %s; the same document with empty separator lines parses to the Files paragraphs written'
-                  % ('' if strict else '..., strict=False', mode, seps, type(exc).__name__, exc), small)
+                  '%s: %s; the same document with %s parses to the Files paragraphs written'
+                  % ('' if strict else '..., strict=False', mode, seps, type(exc).__name__, exc,
+                     {'whitespace-only': 'empty separator lines', 'several-lines': 'one empty line between paragraphs',
+                      'strict=False': 'one empty line between paragraphs and the default strict=True'}[which]), small)
     return True
 
 
@@ -1587,7 +1642,7 @@ def _index_of(fps, obj):
 
 def run_doc(ctx, case):
     seps = case.get('seps')
-    if seps and any(is_ws_line(l) for run in seps for l in run):
+    if seps and (case.get('strict') is False or any(len(run) > 1 or is_ws_line(l) for run in seps for l in run)):
         return run_wsdoc(ctx, case)
     c = build_doc(ctx, case)
     want_lists = [G.GlobList(p['F']) for p in case['paras'] if 'F' in p]
@@ -2321,30 +2376,30 @@ _R5_FLOORS = {
     'thorough': {
         'nontrivial': 2700000,
         'M': {
-            'M.match': 23000000, 'M.error': 840000, 'M.stale': 550000, 'M.long.files': 120000, 'M.long.find': 770000,
-            'M.long.reparse': 17000, 'M.long.reparse.find': 520000, 'M.ws-ns.order': 28000, 'M.ws-ns.find': 130000},
+            'M.match': 21000000, 'M.error': 780000, 'M.stale': 510000, 'M.long.files': 93000, 'M.long.find': 590000,
+            'M.long.reparse': 13000, 'M.long.reparse.find': 400000, 'M.ws-ns.order': 21000, 'M.ws-ns.find': 97000},
         'C': {
-            'nontrivial:near-miss': 9500000, 'nontrivial:hit': 7200000, 'long:documents': 17000,
-            'long:lists-beyond-one-text-line': 39000, 'long:joined-length:72-88': 4300, 'long:joined-length:89-199': 5000,
-            'long:joined-length:200-399': 13000, 'long:joined-length:400+': 20000,
-            'long:list-with-single-pattern-of-100+-characters': 14000, 'long:paragraph-via:create': 27000,
-            'long:paragraph-via:assign': 11000, 'long:paragraph-via:assign-in-doc': 11000, 'long:handed-over-as:list': 39000,
-            'long:handed-over-as:tuple': 11000, 'long:patterns-with-hyphen': 290000, 'long:patterns-with-wildcard': 100000,
-            'long:name:whole-hyphenated-pattern': 150000, 'long:name:whole-single-long-pattern': 11000,
-            'long:name:hyphen-fragment': 220000, 'long:name:width-fragment': 20000, 'long:name:glued-neighbours': 61000,
-            'long:re-assigned-lists': 7900, 'long:stale-distinguishing-name': 17000,
-            'long:matches-observed/built-through-api': 1500000, 'long:matches-observed/re-assigned': 720000,
-            'long:matches-observed/after-dump-and-reparse': 1500000, 'long-find:several-paragraphs-match': 110000,
-            'long-find:resolves-to-paragraph-with-list-beyond-one-text-line': 160000,
-            'long-find:last-of-several-matching-is-a-long-list': 45000, 'long:dump-returned': 9000,
-            'long:dump-written-to-file-object': 8900, 'long:reparse-strict': 12000, 'long:reparse-strict=False': 5400,
-            'long:oracle-cross-checked-with-distance-dp': 240000, 'ws-ns:documents': 28000, 'ws-ns:sep:header/Files': 15000,
-            'ws-ns:sep:Files/Files': 37000, 'ws-ns:sep:Files/License': 20000, 'ws-ns:sep:License/Files': 19000,
-            'ws-ns:run:2+-lines': 92000, 'ws-ns:run:empty-line-first': 46000,
-            'ws-ns:run:whitespace-line-first-then-empty': 39000, 'ws-ns:longest-separator-run:3-lines': 10000,
-            'ws-ns:longest-separator-run:4-lines': 14000, 'ws-ns:source-family:list': 12000, 'ws-ns:source-family:file': 15000,
-            'ws-ns:matches-observed': 480000, 'ws-ns-find:several-paragraphs-match': 46000,
-            'ws-ns-find:resolves-to-paragraph-next-to-whitespace-only-separator': 94000,
+            'nontrivial:near-miss': 8800000, 'nontrivial:hit': 6600000, 'long:documents': 13000,
+            'long:lists-beyond-one-text-line': 30000, 'long:joined-length:72-88': 3300, 'long:joined-length:89-199': 3800,
+            'long:joined-length:200-399': 10000, 'long:joined-length:400+': 15000,
+            'long:list-with-single-pattern-of-100+-characters': 10000, 'long:paragraph-via:create': 21000,
+            'long:paragraph-via:assign': 8500, 'long:paragraph-via:assign-in-doc': 8500, 'long:handed-over-as:list': 30000,
+            'long:handed-over-as:tuple': 8500, 'long:patterns-with-hyphen': 220000, 'long:patterns-with-wildcard': 77000,
+            'long:name:whole-hyphenated-pattern': 110000, 'long:name:whole-single-long-pattern': 8500,
+            'long:name:hyphen-fragment': 170000, 'long:name:width-fragment': 15000, 'long:name:glued-neighbours': 47000,
+            'long:re-assigned-lists': 6100, 'long:stale-distinguishing-name': 13000,
+            'long:matches-observed/built-through-api': 1100000, 'long:matches-observed/re-assigned': 560000,
+            'long:matches-observed/after-dump-and-reparse': 1100000, 'long-find:several-paragraphs-match': 85000,
+            'long-find:resolves-to-paragraph-with-list-beyond-one-text-line': 120000,
+            'long-find:last-of-several-matching-is-a-long-list': 35000, 'long:dump-returned': 7000,
+            'long:dump-written-to-file-object': 6900, 'long:reparse-strict': 9300, 'long:reparse-strict=False': 4200,
+            'long:oracle-cross-checked-with-distance-dp': 180000, 'ws-ns:documents': 21000, 'ws-ns:sep:header/Files': 11000,
+            'ws-ns:sep:Files/Files': 27000, 'ws-ns:sep:Files/License': 15000, 'ws-ns:sep:License/Files': 14000,
+            'ws-ns:run:2+-lines': 69000, 'ws-ns:run:empty-line-first': 34000,
+            'ws-ns:run:whitespace-line-first-then-empty': 29000, 'ws-ns:longest-separator-run:3-lines': 7700,
+            'ws-ns:longest-separator-run:4-lines': 10000, 'ws-ns:source-family:list': 9000, 'ws-ns:source-family:file': 11000,
+            'ws-ns:matches-observed': 360000, 'ws-ns-find:several-paragraphs-match': 34000,
+            'ws-ns-find:resolves-to-paragraph-next-to-whitespace-only-separator': 70000,
             'ws-build:documents-parsed-with-strict=False': 2900},
     },
 }
